@@ -128,6 +128,10 @@ CStep(Q, s) ==
                 IF a.k = "xtor" THEN
                    CGo(s, CArgs(<<>>, a.args, env, [kind |-> "dtorarg", name |-> a.name,
                                                   outer |-> [done |-> ctl.done, rest |-> rest, env |-> env, then |-> ctl.then]]))
+                ELSE IF a.k = "mu" /\ CIsCodata(Q, a.ty) THEN
+                   \* bind(~mu x.s)[k] = <mu a.k(a) | ~mu x.s> at a codata type: ~mu is no covalue there, the rest of the
+                   \* statement is passed to s by name (focus.rs, Bind for Mu<Cns>)
+                   CGo(s, CStmt(a.stmt, (a.var :> [t |-> "kthunk", done |-> ctl.done, rest |-> rest, env |-> env, then |-> ctl.then]) @@ env))
                 ELSE push(CConsVal(Q, an, env))
   ELSE IF ctl.k = "cutneg" THEN
      LET P == ctl.P E == ctl.E IN
@@ -140,6 +144,7 @@ CStep(Q, s) ==
                    IN IF Len(cl.ctx) # Len(E.args) THEN CFail(s, "cocase: clause arity")
                       ELSE CGo(s, CStmt(cl.body, CBinds(cl.ctx, E.args) @@ P.env))
         ELSE IF P.t = "thunk" THEN LET m == CNode(Q, P.n) IN CGo(s, CStmt(m.stmt, (m.var :> E) @@ P.env))
+        ELSE IF P.t = "kthunk" THEN CGo(s, CArgs(Append(P.done, E), P.rest, P.env, P.then))
         ELSE CFail(s, "cut at codata type: producer value of kind " \o P.t)
      ELSE CFail(s, "cut at codata type: consumer value of kind " \o E.t)
   ELSE CFail(s, "bad control")
